@@ -9,9 +9,11 @@ import (
 
 	beacon "github.com/oasisprotocol/oasis-core/go/beacon/api"
 	"github.com/oasisprotocol/oasis-core/go/common/crypto/signature"
+	memorySigner "github.com/oasisprotocol/oasis-core/go/common/crypto/signature/signers/memory"
 	"github.com/oasisprotocol/oasis-core/go/common/node"
 	"github.com/oasisprotocol/oasis-core/go/common/quantity"
 	abciAPI "github.com/oasisprotocol/oasis-core/go/consensus/cometbft/api"
+	consensusState "github.com/oasisprotocol/oasis-core/go/consensus/cometbft/apps/consensus/state"
 	schedulerState "github.com/oasisprotocol/oasis-core/go/consensus/cometbft/apps/scheduler/state"
 	stakingState "github.com/oasisprotocol/oasis-core/go/consensus/cometbft/apps/staking/state"
 	symx "github.com/oasisprotocol/oasis-core/go/internal/verifsymx"
@@ -38,6 +40,24 @@ func c14UpdKey(u types.ValidatorUpdate) string {
 	pk := u.PubKey
 	return string(pk.GetEd25519())
 }
+
+// c14Proof: node j's VRF proof for the epoch. Under the engine the proof-to-hash step of the curve library is a
+// harness function (redirect) and the proof bytes are symbolic; natively a real proof is produced with a test key
+// (the sortition order then is whatever the real hashes give).
+func c14Proof(j int) *signature.Proof {
+	p := &signature.Proof{PublicKey: c14Key(byte(91 + j))}
+	if symx.Symbolic() {
+		copy(p.Proof[:], symx.Bytes(symx.N("proof", j), 8))
+		return p
+	}
+	signer := memorySigner.NewTestSigner("verif c14 vrf " + string(rune('0'+j)))
+	signer.(*memorySigner.Signer).UnsafeSetRole(signature.SignerVRF)
+	real, err := signature.Prove(signer, []byte("verif alpha"))
+	symx.Assert(err == nil, "Prove failed")
+	return real
+}
+
+func vC14ProofToHash(p *signature.Proof) []byte { return append([]byte{}, p.Proof[:16]...) }
 
 var c14MaxSupply = quantity.NewFromUint64(10_000_000_000_000_000_000)
 
@@ -67,6 +87,7 @@ func VerifC14Validators() {
 		acct.Escrow.StakeAccumulator.AddClaimUnchecked("entity", staking.GlobalStakeThresholds(staking.KindEntity))
 		symx.Assert(st.SetAccount(ctx, entAddrs[i], &acct) == nil, "SetAccount failed")
 	}
+	c14Must(consensusState.NewMutableState(ctx.State()).SetChainContext(ctx, "aaaaaaaaaaaaaaaaaaaaaaaaaaaaaaaaaaaaaaaaaaaaaaaaaaaaaaaaaaaaaaaa"), "SetChainContext")
 	ctx = appState.NewContext(abciAPI.ContextBeginBlock)
 	nodes := make([]*node.Node, m)
 	owner := make([]int, m)
@@ -74,7 +95,7 @@ func VerifC14Validators() {
 		owner[j] = symx.Choose(symx.N("owner", j), e)
 		n := &node.Node{ID: c14Key(byte(1 + j)), EntityID: entIDs[owner[j]]}
 		n.Consensus.ID = c14Key(byte(51 + j))
-		if symx.Bool(symx.N("isValidator", j)) {
+		if symx.Cfg("allval", 0) == 1 || symx.Bool(symx.N("isValidator", j)) {
 			n.Roles = node.RoleValidator
 		} else {
 			n.Roles = node.RoleComputeWorker
@@ -93,7 +114,30 @@ func VerifC14Validators() {
 	symx.Assert(err == nil, "NewStakeAccumulatorCache failed")
 	rewardable := make(map[staking.Address]struct{})
 	entropy := []byte("verif entropy 0123456789abcdef0123456789abcdef")
-	valEntities, err := electValidators(ctx, 1, &beacon.ConsensusParameters{Backend: beacon.BackendInsecure}, stakeAcc, rewardable, nodes, params, entropy, nil)
+	beaconParams := &beacon.ConsensusParameters{Backend: beacon.BackendInsecure}
+	var vrf *beacon.PrevVRFState
+	useVRF := symx.Cfg("vrf", 0) == 1
+	if useVRF {
+		// VRF beacon: a node takes part in the cryptographic sortition iff it submitted a proof for the epoch
+		// (whether it does is up to the node); the minimum validator count is 1 or 2
+		beaconParams.Backend = beacon.BackendVRF
+		params.MinValidators = 1 + symx.Choose("minValidators", 2)
+		symx.Assume(params.MinValidators <= params.MaxValidators) // (the parameter sanity check)
+		params.MaxValidatorsPerEntity = 1
+		vrf = &beacon.PrevVRFState{Pi: map[signature.PublicKey]*signature.Proof{}, CanElectCommittees: true}
+		for j := 0; j < m; j++ {
+			if symx.Bool(symx.N("hasProof", j)) {
+				vrf.Pi[nodes[j].ID] = c14Proof(j)
+				// (VRF outputs of different keys collide only with negligible probability)
+				for k := 0; k < j; k++ {
+					if o := vrf.Pi[nodes[k].ID]; o != nil {
+						symx.Assume(o.Proof != vrf.Pi[nodes[j].ID].Proof)
+					}
+				}
+			}
+		}
+	}
+	valEntities, err := electValidators(ctx, 1, beaconParams, stakeAcc, rewardable, nodes, params, entropy, vrf)
 
 	eligibleEnt := func(i int) bool { return stakes[i].Cmp(threshold) >= 0 }
 	anyEligible := false
@@ -103,6 +147,25 @@ func VerifC14Validators() {
 		}
 	}
 	if err != nil {
+		if useVRF {
+			// with a minimum: the election may fail only if fewer entities than the minimum run an eligible validator
+			// node (each entity can contribute at least one validator)
+			eligibleEntities := 0
+			for i := 0; i < e; i++ {
+				has := false
+				for j := 0; j < m; j++ {
+					if owner[j] == i && nodes[j].HasRoles(node.RoleValidator) && eligibleEnt(i) {
+						has = true
+					}
+				}
+				if has {
+					eligibleEntities++
+				}
+			}
+			symx.Assert(eligibleEntities < params.MinValidators, "validator election failed (would halt the chain) although enough entities run eligible validator nodes")
+			symx.Cover("no-validators")
+			return
+		}
 		symx.Assert(!anyEligible, "election failed although an eligible validator node exists")
 		symx.Cover("no-validators")
 		return
@@ -147,7 +210,7 @@ func VerifC14Validators() {
 				hasNode = true
 			}
 		}
-		if hasNode && eligibleEnt(i) && !elected[i] {
+		if hasNode && eligibleEnt(i) && !elected[i] && !useVRF {
 			symx.Assert(len(pending) == params.MaxValidators, "eligible entity left out although the set is not full")
 			for k := 0; k < e; k++ {
 				if elected[k] {
